@@ -23,6 +23,7 @@ is bound in the generated code's namespace (repair c051ced).
 NOT decided: behaviour of the exec-generated functions on vectors.
 """
 import ast
+import re
 
 from ..core import rule
 from ..srcmodel import AnalysisError, walk_no_nested, unparse, norm_stmt
@@ -412,11 +413,17 @@ def the_bound_is_one_operand(ctx):
     if not aug:
         ctx.need(False, 'constraints_parser: the statement that appends the tolerance to the bound is not found')
     dicts = [s for s in stmts_of(lp) if isinstance(s, ast.Assign) and len(s.targets) == 1 and isinstance(s.targets[0], ast.Name) and s.targets[0].id == 'eqn' and isinstance(s.value, ast.Dict)]
-    ctx.need(dicts, 'constraints_parser: eqn = {...} of the second pass is not found')
-    d = dicts[-1]
-    val = [v for k, v in zip(d.value.keys, d.value.values) if isinstance(k, ast.Constant) and k.value == 'rhs']
-    ctx.need(val, "constraints_parser: eqn has no 'rhs' entry")
-    v = val[0]
+    # ... or the entry is (re)written by a statement of its own before the tolerance is appended: eqn['rhs'] = '(%s)' % eqn['rhs']
+    sets = [s for s in stmts_of(lp) if isinstance(s, ast.Assign) and len(s.targets) == 1 and ''.join(unparse(s.targets[0]).split()) == "eqn['rhs']" and s.lineno < aug[0].lineno]
+    ctx.need(dicts or sets, "constraints_parser: neither eqn = {...} nor eqn['rhs'] = ... is found in the second pass")
+    if sets:
+        d = sets[-1]
+        v = d.value
+    else:
+        d = dicts[-1]
+        val = [v for k, v in zip(d.value.keys, d.value.values) if isinstance(k, ast.Constant) and k.value == 'rhs']
+        ctx.need(val, "constraints_parser: eqn has no 'rhs' entry")
+        v = val[0]
 
     def core(e):
         # the bound's own text: split[-1] with whitespace / '=' stripped - stands for VAR
@@ -482,11 +489,13 @@ def _rewrites(fnode, consts=None):
 
 def _preamble_names(f):
     """names bound EXPLICITLY by the import preamble a generator executes before the generated code (star imports aside)"""
+    # every piece of import text the generator builds - `code = "..."; code += "..."`, or the pieces of a ''.join((...)) - in source order
     text = ''
-    for st in stmts_of(f.node):
-        if isinstance(st, (ast.Assign, ast.AugAssign)) and isinstance(st.value, ast.Constant) and isinstance(st.value.value, str) and 'import' in st.value.value and \
-                any(isinstance(n, ast.Name) and n.id == 'code' for n in ast.walk(st.targets[0] if isinstance(st, ast.Assign) else st.target)):
-            text += st.value.value
+    doc = f.node.body[0].value if f.node.body and isinstance(f.node.body[0], ast.Expr) and isinstance(f.node.body[0].value, ast.Constant) else None
+    pieces = [n for n in walk_no_nested(f.node) if isinstance(n, ast.Constant) and isinstance(n.value, str) and n is not doc and
+              re.match(r'\s*(from\s+[\w.]+\s+import|import)\s', n.value)]
+    for n in sorted(pieces, key=lambda n: (n.lineno, n.col_offset)):
+        text += n.value if n.value.rstrip().endswith(';') else n.value + ';'
     names, stars = set(), set()
     try:
         tree = ast.parse(text)
